@@ -1435,16 +1435,17 @@ func moduleWrittenGlobals(p *Prog) map[*ssa.Global]string {
 					if g := globalOf(x.Map); g != nil && g.Pkg != nil && strings.HasPrefix(g.Pkg.Pkg.Path(), modPath) {
 						out[g] = p.InstrPos(in)
 					}
-				case *ssa.Call:
-					if bi, ok := x.Call.Value.(*ssa.Builtin); ok && bi.Name() == "delete" && len(x.Call.Args) == 2 {
-						if g := globalOf(x.Call.Args[0]); g != nil && g.Pkg != nil && strings.HasPrefix(g.Pkg.Pkg.Path(), modPath) {
+				case ssa.CallInstruction: // (a call, or a deferred / spawned one: defer pool.Put(buf))
+					cc := x.Common()
+					if bi, ok := cc.Value.(*ssa.Builtin); ok && bi.Name() == "delete" && len(cc.Args) == 2 {
+						if g := globalOf(cc.Args[0]); g != nil && g.Pkg != nil && strings.HasPrefix(g.Pkg.Pkg.Path(), modPath) {
 							out[g] = p.InstrPos(in)
 						}
 					}
-					if sc := x.Call.StaticCallee(); sc != nil && sc.Signature.Recv() != nil && mutating[sc.Name()] && len(x.Call.Args) > 0 {
+					if sc := cc.StaticCallee(); sc != nil && sc.Signature.Recv() != nil && mutating[sc.Name()] && len(cc.Args) > 0 {
 						rt := types.TypeString(sc.Signature.Recv().Type(), nil)
 						if strings.HasPrefix(rt, "*sync.") || strings.HasPrefix(rt, "*sync/atomic.") {
-							if g := globalOf(x.Call.Args[0]); g != nil && g.Pkg != nil && strings.HasPrefix(g.Pkg.Pkg.Path(), modPath) {
+							if g := globalOf(cc.Args[0]); g != nil && g.Pkg != nil && strings.HasPrefix(g.Pkg.Pkg.Path(), modPath) {
 								out[g] = p.InstrPos(in)
 							}
 						}
@@ -1543,11 +1544,12 @@ func checkConfigReadOnly(r *Report, p *Prog, rule string, pkg string, typeNames 
 					note(x.Addr, in)
 				case *ssa.MapUpdate:
 					note(x.Map, in)
-				case *ssa.Call:
-					if sc := x.Call.StaticCallee(); sc != nil && sc.Signature.Recv() != nil && mutating[sc.Name()] && len(x.Call.Args) > 0 {
+				case ssa.CallInstruction:
+					cc := x.Common()
+					if sc := cc.StaticCallee(); sc != nil && sc.Signature.Recv() != nil && mutating[sc.Name()] && len(cc.Args) > 0 {
 						rt := types.TypeString(sc.Signature.Recv().Type(), nil)
 						if strings.HasPrefix(rt, "*sync.") || strings.HasPrefix(rt, "*sync/atomic.") {
-							note(x.Call.Args[0], in)
+							note(cc.Args[0], in)
 						}
 					}
 				}
